@@ -30,6 +30,13 @@ CHECKS = {
          "rminus Jacobians) and every (element, point) pair for dr_action, 12 types x 2 scalars, against phi1(-/+ad) computed through an "
          "augmented matrix exponential in long double, its LU inverse, and M hat(e_i) v, at the stated 1e-7 / 1e-2 bound.",
     design="4/C04", technique="explicit-state enumeration of a finite input space against a reference model"),
+ "C05": dict(
+    text="Bounded exhaustive enumeration (double precision, as the statement's bound): every alphabet tangent with rotation norm <= pi-1e-3 "
+         "for SO2, SO3, SE2, SE3, C1 and three Bundle compositions, d2r/d2l_exp(inv), d2r_rminus, d2r_rminus_squarednorm against "
+         "complex-step derivatives of phi1(-/+ad) in the documented stacked layout (no finite-difference cancellation), at the stated 1e-5; "
+         "d_matrix_product and d2_fog on every size configuration up to the bound x static/dynamic x dense/sparse on integer data compared exactly, "
+         "with compile probes for the dynamic-size configurations.",
+    design="4/C05", technique="explicit-state enumeration of finite input / configuration spaces against a reference model"),
 }
 
 PENDING_REASON = "check not built yet in this session (planned in DESIGN.md section 4); will be claimed once its harness runs clean"
